@@ -2207,7 +2207,7 @@ def _collapse_blocks_along_axes(reduced: DaskArray, axis: T_Axes, group_chunks) 
     from dask.highlevelgraph import HighLevelGraph
 
     nblocks = tuple(reduced.numblocks[ax] for ax in axis)
-    output_chunks = reduced.chunks[: -len(axis)] + ((1,) * (len(axis) - 1),) + group_chunks
+    output_chunks = reduced.chunks[: -len(axis)] + ((1,),) * (len(axis) - 1) + group_chunks
 
     # extract results from the dict
     ochunks = tuple(range(len(chunks_v)) for chunks_v in output_chunks)
